@@ -27,6 +27,7 @@ enum Msg {
     Proceeding { w: usize },
     Invoke { w: usize, ev: Value },
     Return { w: usize, r: Vec<Value>, panicked: bool },
+    Tick { to: u64 },
     Done { w: usize },
 }
 
@@ -225,12 +226,19 @@ pub fn run_sched(prog: &Program, forced: &[usize], order: Option<&[usize]>, rng:
         let cmds = cmds.clone();
         let store2 = store.clone();
         let cache2 = cache.clone();
+        let timer2 = sut.lock().unwrap().timer.clone();
         std::thread::spawn(move || {
             WORKER.with(|x| *x.borrow_mut() = Some(WorkerCtx { id: w, tx: tx2.clone(), rx: ctx_rx }));
             let handler = BinaryHandler::new(store2);
             for c in &cmds {
                 // a scheduling point in front of every command
                 WORKER.with(|x| park(x.borrow().as_ref().unwrap(), "cmd.start", None, &never));
+                if c.op == "tick" {
+                    // the clock as one more client: a second passes at whatever point the scheduler lets it
+                    timer2.now.store(c.delta, Ordering::SeqCst);
+                    let _ = tx2.send(Msg::Tick { to: c.delta });
+                    continue;
+                }
                 let cas = lit(&c.cas);
                 let fr = frame_of(c, cas);
                 let _ = tx2.send(Msg::Invoke { w, ev: cmd_event(c, cas, &fr) });
@@ -277,6 +285,9 @@ pub fn run_sched(prog: &Program, forced: &[usize], order: Option<&[usize]>, rng:
         Msg::Return { w, r, panicked } => {
             *seqno += 1;
             events.push(json!({"e": "ret", "c": w + 1, "seq": *seqno, "r": r, "panic": panicked}));
+        }
+        Msg::Tick { to } => {
+            events.push(json!({"e": "tick", "to": to}));
         }
         Msg::Done { w } => st[w] = St::Done,
     };
@@ -370,7 +381,8 @@ pub fn run_sched(prog: &Program, forced: &[usize], order: Option<&[usize]>, rng:
     // final observation by a sequential reader (only if the run completed: otherwise locks may be held)
     let mut fin = json!({"e": "final", "outcome": format!("{:?}", outcome), "steps": steps, "sched": sched_log,
         "parked": (0..n).filter(|w| st[*w] != St::Done).map(|w| json!({"c": w + 1, "site": site[w].0})).collect::<Vec<_>>()});
-    let mut timer_now = timer_now;
+    let _ = timer_now;
+    let mut timer_now = sut.lock().unwrap().timer.now.load(Ordering::SeqCst);
     if outcome == Outcome::Complete && prog.post_tick > timer_now {
         // let time pass (delayed flushes, TTLs) before the final reads
         sut.lock().unwrap().timer.now.store(prog.post_tick, Ordering::SeqCst);
@@ -485,7 +497,7 @@ fn merges(counts: &mut Vec<usize>, cur: &mut Vec<usize>, out: &mut Vec<Vec<usize
 /// store: [{"sig": what the clients see, "orders": [[client, client, ...], ...]}].  None if there are more
 /// than `cap` orders (or the eviction policy is on: its victims are random).
 pub fn serial_outcomes(prog: &Program, cap: usize) -> Option<Vec<Value>> {
-    if prog.policy != "none" {
+    if prog.policy != "none" || prog.clients.iter().any(|cl| cl.iter().any(|c| c.op == "tick")) {
         return None;
     }
     let mut counts: Vec<usize> = prog.clients.iter().map(|c| c.len()).collect();
@@ -756,8 +768,17 @@ pub fn hammer(threads: usize, ops: usize, secs: u64, policy: &str, mem_limit: u6
             let handler = BinaryHandler::new(store2);
             for i in 0..ops {
                 let key = if i % 7 == 3 { b"shared".to_vec() } else { format!("h{}-{}", w, i % 50).into_bytes() };
-                let op = match i % 11 { 5 => "delete", 8 => "get", 9 => "append", _ => "set" };
-                let c = Cmd { op: op.into(), q: false, gk: false, key, val: vec![b'v'; 10 + (i % 40)], flags: 1, ttl: 0,
+                let mut op = match i % 11 { 5 => "delete", 8 => "get", 9 => "append", 10 => "incr", _ => "set" };
+                let mut key = key;
+                let mut ttl = 0;
+                // several clients flush now and then (immediately / with a delay), so that flushes overlap each other
+                // and the single-key commands
+                if w % 2 == 0 && i % 61 == 13 {
+                    op = "flush";
+                    key = vec![];
+                    ttl = if i % 2 == 0 { 0 } else { 5 };
+                }
+                let c = Cmd { op: op.into(), q: false, gk: false, key, val: if op == "flush" { vec![] } else { vec![b'v'; 10 + (i % 40)] }, flags: if op == "flush" { 0 } else { 1 }, ttl,
                     cas: CasSpec::Lit(0), opaque: i as u32, delta: 1, initial: 0 };
                 let _ = exec_cmd(&handler, 1 << 20, &c, 0);
             }
